@@ -4,6 +4,7 @@ The agent gets only the property's text and a scratch worktree - nothing from /v
 import json, sys
 pid, wt, out, n = sys.argv[1], sys.argv[2], sys.argv[3], int(sys.argv[4]) if len(sys.argv) > 4 else 3
 wave2 = len(sys.argv) > 5 and sys.argv[5] == "wave2"
+wave3 = len(sys.argv) > 5 and sys.argv[5] == "wave3"
 for l in open('/verif/properties.jsonl'):
     p = json.loads(l)
     if p['id'] == pid:
@@ -32,7 +33,17 @@ Your task: produce {n} different, independent source changes to the library (fil
  a changed default argument / constant / table entry / enum value / regular expression, a caching or 'performance' shortcut, two cooperating edits
  at different sites that each look harmless alone, an exception handler that swallows or converts too much, an edit that only changes behaviour
  after a particular earlier operation, state left behind across reconnects or across two instances sharing something. Avoid purely cosmetic sites.
-""" if wave2 else "") + f"""
+""" if wave2 else "") + ("""
+ This is a THIRD round. Every change of this round must be DISGUISED AS A REFACTORING: the diff should read like a clean-up a maintainer would wave
+ through - extract a few statements into a new private helper method, inline a helper, split a method in two, introduce a module-level constant or a
+ local for a repeated expression, cache an attribute in a local, rename something, early-return / if-else restructuring, De Morgan, `a == x or a == y`
+ -> `a in (...)`, conditional expression <-> if/else, if/elif chain <-> `match` or dict dispatch, loop <-> comprehension, `for` <-> `while`, reorder
+ 'independent' statements, move a statement across an `await`, hoist something out of a loop or a try block - but the refactoring is NOT QUITE
+ behaviour-preserving: a guard gets lost or weakened on one path in the move, the extracted helper returns early where the original fell through, a value
+ is now read before instead of after an await (stale), an exception is now raised outside the try that used to catch it, a condition was 'simplified'
+ wrongly for one operand combination, the constant is shared and mutated, the reordering matters for one interleaving, etc. The semantic change must be
+ small and hard to spot inside an otherwise faithful refactoring (the diff may be 10-40 lines because of the refactoring itself).
+""" if wave3 else "") + f"""
 
 For each change k = 1..{n} create the directory {out}/m<k>/ containing:
   patch.diff  - `git diff` of the change against the clean worktree (library sources only)
